@@ -87,12 +87,22 @@ fn child(thorough: bool, k: usize, n: usize, resume: (i64, u64)) -> ! {
             if pos as i64 == resume.0 && sno <= resume.1 {
                 continue;
             }
+            // hand over the counts collected so far before a state that may take the process down
+            // (and regularly otherwise), so that a dying worker loses no accounting
+            if (case.panic != "none" || ci % 200 == 199) && !st.0.is_empty() {
+                println!("T {}", json!(st.0));
+                st = Stats::default();
+            }
             vcommon::child::set_state(&format!("pos={} sno={}", pos, sno));
             support::CALLS.with(|c| c.set(0));
             let o = engine::check_case(e.tm, mi, &case, &mut st);
             st.add("states", 1);
             st.add("transitions", support::CALLS.with(|c| c.get()));
-            methods_seen.insert(mi);
+            if methods_seen.insert(mi) {
+                st.add(&format!("grp.{}", e.tm.methods[mi].group), 1);
+                st.add("methods", 1);
+            }
+            st.add(&format!("grpstates.{}", e.tm.methods[mi].group), 1);
             for v in &o.violations {
                 println!("F {}", json!({"oracle": v.oracle, "tags": v.tags, "summary": v.summary, "case": v.case}));
             }
@@ -107,14 +117,12 @@ fn child(thorough: bool, k: usize, n: usize, resume: (i64, u64)) -> ! {
                 println!("X {}", json!({"pos": pos, "sno": sno, "case": cj}));
             }
             if o.poisoned {
-                st.add("methods", methods_seen.len() as u64);
                 println!("T {}", json!(st.0));
                 let _ = out.lock().flush();
                 eprintln!("\nCRASH-STATE pos={} sno={} selfexit=1", pos, SKIP_ENTRY);
                 std::process::exit(3);
             }
         }
-        st.add("methods", methods_seen.len() as u64);
         st.add("entries", 1);
         println!("T {}", json!(st.0));
     }
@@ -190,6 +198,9 @@ fn parent(run: &mut Run) -> Map<String, Value> {
                 };
                 let mm = &e.tm.methods[*mi];
                 g.1.add("oc.process_died", 1);
+                g.1.add("states", 1);
+                g.1.add("evaluations", 1);
+                g.1.add("nontrivial", 1);
                 let msg = c.stderr_tail.lines().filter(|l| !l.starts_with("CRASH-STATE") && !l.trim().is_empty()).last().unwrap_or("").to_string();
                 g.0.violation(vcommon::Violation {
                     oracle: "process_abort".into(),
@@ -214,8 +225,16 @@ fn parent(run: &mut Run) -> Map<String, Value> {
         vcommon::machinery_error(&format!("{} harness problem(s), first: {}", machinery.len(), machinery[0]));
     }
     let g = |k: &str| stats.0.get(k).copied().unwrap_or(0);
-    if g("entries") + g("workers_abandoned_after_connect_panic") < n_entries as u64 {
-        vcommon::machinery_error(&format!("only {} of {} entries were completed", g("entries"), n_entries));
+    let completed = g("entries") + g("workers_abandoned_after_connect_panic");
+    let incomplete = completed < n_entries as u64;
+    if incomplete {
+        // workers died more often than the restart cap allows. With violations in hand that is
+        // a (non-exhaustive) verdict; without, nothing can be claimed.
+        if run.violations_found() == 0 {
+            vcommon::machinery_error(&format!("only {} of {} entries were completed and no violation explains it", completed, n_entries));
+        }
+        run.exhaustive = false;
+        run.notes.push(format!("only {} of {} entries were completed: workers kept dying (restart cap 400 per worker)", completed, n_entries));
     }
     let mut cov = Map::new();
     // samples: the first, the last and evenly spaced cases of the (deterministic) work list
@@ -247,6 +266,14 @@ fn parent(run: &mut Run) -> Map<String, Value> {
     cov.insert("outcome_classes".into(), Value::Object(oc));
     cov.insert("nontrivial_by_rule".into(), Value::Object(sub("nt.")));
     cov.insert("reference_arguments_passed_by_ref".into(), Value::Object(sub("byref.")));
+    cov.insert("methods_by_group".into(), Value::Object(sub("grp.")));
+    cov.insert("states_by_group".into(), Value::Object(sub("grpstates.")));
+    cov.insert(
+        "groups".into(),
+        json!({"A": "1 argument x every return kind", "B": "2 arguments (all kind pairs) -> u32", "C": "0 arguments x every return kind",
+               "D": "64 / 65 arguments", "E": "traits with 64 / 65 / 200 methods", "F": "3 arguments over {String,&str,&u32,Box<dyn Fn>} -> u32",
+               "R": "quick signatures with the other receiver", "G": "#[async_trait] methods"}),
+    );
     cov.insert("workers_abandoned_after_connect_panic".into(), json!(g("workers_abandoned_after_connect_panic")));
     cov.insert(
         "rule".into(),
@@ -256,7 +283,7 @@ fn parent(run: &mut Run) -> Map<String, Value> {
         "bounds".into(),
         json!({"strings": if thorough { "every length 0..=140, 255..257, 1000, 4095..4097, 70000, multi-byte" } else { "every length 0..=80, multi-byte" },
                "vectors": if thorough { "0,1,2,3,12..17,63,64,65,255..257,1000" } else { "0,1,2,12,13,14,63,64,65" },
-               "string pairs": if thorough { "all (i,j) in 0..=80 x 0..=80; full products of short value lists for all 2- and 3-argument methods" } else { "i in 34..=53 x j in {0,1,2,7,8,9}" },
+               "string pairs": if thorough { "all (i,j) in 0..=80 x 0..=80; full products of short value lists for all 2- and 3-argument methods; full products of the complete quick value lists for all 2-argument methods" } else { "i in 34..=53 x j in {0,1,2,7,8,9}" },
                "panic payloads": "static_str, formatted_string, any(i32), static_str raised inside a caller-side closure",
                "future schedules": if thorough { "0..=4 Pending rounds x wake during/deferred x drop after 0..=n polls" } else { "0..=2 Pending rounds x wake during/deferred x drop after 0..=n polls" },
                "max arguments": 64, "method counts": if thorough { "64, 65, 200" } else { "64, 65" }}),
